@@ -56,6 +56,8 @@ pub enum PG {
     Condu(Vec<Vec<PG>>),
     Onceo(Vec<PG>),
     Dfs(Vec<PG>),
+    /// `dfs { c1, c2, .. }`: several comma-separated top-level clauses (`DFSConj::from_conjunctions`)
+    DfsC(Vec<Vec<PG>>),
     Anyo(Box<PG>),
     /// `loop { c1, c2, ... }`: the clauses (each a conjunction) are conjoined and tried unboundedly often
     Loop(Vec<Vec<PG>>),
@@ -165,6 +167,7 @@ fn shrink_goal(g: &PG) -> Vec<Vec<PG>> {
         PG::Conda(cs) => clauses(cs, &|v| PG::Conda(v)),
         PG::Condu(cs) => clauses(cs, &|v| PG::Condu(v)),
         PG::Loop(cs) => clauses(cs, &|v| PG::Loop(v)),
+        PG::DfsC(cs) => clauses(cs, &|v| PG::DfsC(v)),
         _ => vec![],
     }
 }
@@ -240,6 +243,10 @@ impl PG {
             }
             PG::Loop(cs) => {
                 out.push_str("loop ");
+                toks_clauses(cs, out)
+            }
+            PG::DfsC(cs) => {
+                out.push_str("dfsc ");
                 toks_clauses(cs, out)
             }
             PG::Always => out.push_str("always "),
@@ -336,6 +343,7 @@ impl PG {
             "fresh" => PG::Fresh(Box::new(PG::parse(t))),
             "anyo" => PG::Anyo(Box::new(PG::parse(t))),
             "loop" => PG::Loop(clauses(t)),
+            "dfsc" => PG::DfsC(clauses(t)),
             "always" => PG::Always,
             "never" => PG::Never,
             "call" => {
@@ -446,6 +454,11 @@ pub fn build<K: Kind>(g: &PG, vars: &mut Vars) -> K {
             let v: Vec<DFSGoal<DU, DE>> = gs.iter().map(|x| build::<DFSGoal<DU, DE>>(x, vars)).collect();
             proto_vulcan::operator::dfs::<DU, DE, K>(OperatorParam::new(&[&v[..]])).cast_into()
         }
+        PG::DfsC(cs) => {
+            let v: Vec<Vec<DFSGoal<DU, DE>>> = cs.iter().map(|c| c.iter().map(|x| build::<DFSGoal<DU, DE>>(x, vars)).collect()).collect();
+            let r: Vec<&[DFSGoal<DU, DE>]> = v.iter().map(|c| &c[..]).collect();
+            proto_vulcan::operator::dfs::<DU, DE, K>(OperatorParam::new(&r)).cast_into()
+        }
         PG::Anyo(b) => {
             let g = build::<Goal<DU, DE>>(b, vars);
             K::from_bfs(proto_vulcan::operator::anyo(OperatorParam::new(&[&[g]])))
@@ -531,9 +544,16 @@ pub fn build<K: Kind>(g: &PG, vars: &mut Vars) -> K {
             .cast_into()
         }
         PG::Closure(gs) => {
-            let v: Vec<K> = gs.iter().map(|x| build::<K>(x, vars)).collect();
-            let g: K = InferredConj::<DU, DE, K>::from_array(&v).cast_into();
-            proto_vulcan::operator::closure::Closure::new(proto_vulcan::operator::ClosureOperatorParam::new(Box::new(move || g.clone()))).cast_into()
+            // as the macro does: the body is BUILT when the closure is solved, anew for every state that reaches it (so a
+            // `project` inside gets fresh projection cells each time)
+            let _ = gs.iter().map(|x| build::<K>(x, vars)).count(); // allocate the variables the body mentions
+            let (gs, vc) = (gs.clone(), vars.clone());
+            proto_vulcan::operator::closure::Closure::new(proto_vulcan::operator::ClosureOperatorParam::new(Box::new(move || {
+                let mut vs = vc.clone();
+                let v: Vec<K> = gs.iter().map(|x| build::<K>(x, &mut vs)).collect();
+                InferredConj::<DU, DE, K>::from_array(&v).cast_into()
+            })))
+            .cast_into()
         }
         PG::TimesZ(a, b, c) => rel::timesz::<DU, DE, K>(t!(a), t!(b), t!(c)).cast_into(),
     }
